@@ -1,16 +1,19 @@
 import TexelVerif.Drv.TT
 import TexelVerif.Drv.Chess
+import TexelVerif.Drv.Pos
 /-! Line-protocol driver: one operation per stdin line, one canonical reply line.
     Imports model files only (no proofs, no Mathlib), so it links as a `lean_exe`. -/
 
 structure DrvState where
   tt : TT.Table := default
+  pos : Drv.Pos.State := {}
 
 def dispatch (st : DrvState) (line : String) : DrvState × String :=
   let toks := (line.trimAscii.toString.splitOn " ").filter (· ≠ "")
   match toks with
   | "tt" :: args => let (t, o) := Drv.TT.step st.tt args; ({ st with tt := t }, o)
   | "chess" :: args => (st, Drv.Chess.step args)
+  | "pos" :: args => let (p, o) := Drv.Pos.step st.pos args; ({ st with pos := p }, o)
   | _ => (st, "bad-op")
 
 partial def loop (h : IO.FS.Stream) (out : IO.FS.Stream) (st : DrvState) : IO Unit := do
